@@ -69,6 +69,12 @@ def gen(seed, tier):
             if r.random() < 0.7:
                 r.shuffle(lines)
             o = {"i": flags, "u": -1, "o": "x"}
+            if len(flags) > 1 and rep % 2:
+                # the same letters spread over several -i options (-i a -i s ...), in any order
+                ls = list(flags)
+                r.shuffle(ls)
+                cut = sorted(r.sample(range(1, len(ls)), r.randint(1, len(ls) - 1)))
+                o["i"] = "+".join("".join(ls[a:b]) for a, b in zip([0] + cut, cut + [len(ls)]))
             if r.random() < 0.6:
                 o["R"] = 1
             if r.random() < 0.5:
@@ -77,6 +83,31 @@ def gen(seed, tier):
                 o["c"] = 1
             cases.append(("C14-%d" % n, "C", opts_str(o), seg(0, lines)))
             n += 1
+    # rows at every AGE: the history is replayed with a simulated clock (kind D) and every row is observed as the table line
+    # the program prints at that moment -- last-contact column, the hex age digits of position / track / heading (PTH),
+    # rows that have not been heard for seconds, minutes, hours
+    ages = [500, 9500, 10000, 59000, 99000, 99500]
+    for mask in range(32):
+        flags = "".join(c for i, c in enumerate("aAews") if mask >> i & 1) or "x"
+        if tier == "quick" and mask % 4 != 3 and mask not in (0, 16):
+            continue
+        pool = r.sample(ICAOS, 2)
+        lines = []
+        for icao in pool:
+            lines += full_aircraft(g, icao, 0.9)
+        segs = [seg(0, lines)]
+        t = 0
+        for a in r.sample(ages, 3):
+            t += a
+            # refreshers whose values fit their columns (the property's premise): all-call replies, identity replies
+            segs.append(seg(t, [r.choice([g.f_df11(pool[0]), g.f_short(5, pool[0])])] if r.random() < 0.5 else []))
+        o = {"i": flags, "d": 100000}
+        if r.random() < 0.6:
+            o["R"] = 1
+        if r.random() < 0.5:
+            o["U"] = 1
+        cases.append(D("C14-d%d" % n, o, segs))
+        n += 1
     # every (type code, category) pair of the identification squitter: wake class letter or blank
     for rep in range(1 if tier == "quick" else 6):
         combos = [(tc, ca) for tc in range(1, 5) for ca in range(8)]
@@ -96,6 +127,20 @@ def gen(seed, tier):
 
 
 def oracle(parts, outcome, obs):
+    if parts[1] == "D":
+        if outcome.replace("+slow", "") != "ok":
+            return "outcome %s" % outcome
+        opts = pyspec.case_opts(parts)
+        flags = "".join(opts.get("i", "").split("+"))
+        cols, width = columns(flags)
+        for k, sg in enumerate(obs.split("#")):
+            for a, row in pyspec.rows_of(sg).items():
+                line = row.get("disp", "").replace("_", " ")
+                lc = line.rsplit(" ", 1)[-1]
+                over = max(0, len(lc) - 2)          # a last-contact age of 100 s or more does not fit its column
+                if len(line) != width + over and not ("ICAO" in line[7:12]):
+                    return "segment %d: row of %06X has width %d, the header has %d: %r" % (k, a, len(line), width, line)
+        return None
     if outcome != "ok":
         return "outcome %s" % outcome
     opts = pyspec.case_opts(parts)
@@ -126,6 +171,12 @@ def oracle(parts, outcome, obs):
                 c = cell(line, cols, name)
                 if c.strip() and c[-1] == " ":
                     return "frame %d column %s not right-aligned: %r" % (k, name, c)
+            # blank when unknown: a cell whose value part is blank carries no source mark either (the mark sits in the
+            # separator position after TRK, HDG, ALT B, VRATE ...)
+            for name in ("TRK", "HDG", "VRATE", "ALT B"):
+                st, w = cols[name]
+                if st + w < len(line) and not line[st:st + w].strip() and line[st + w] != " ":
+                    return "frame %d column %s is blank but carries the mark %r" % (k, name, line[st + w])
             c = cell(line, cols, "CALLSIGN")
             if c.strip() and c[0] == " ":
                 return "frame %d callsign not left-aligned: %r" % (k, c)
